@@ -414,11 +414,11 @@ def rule_C2(ctx):
 def run(ctx):
     ctx.assume("numpy Generator.multinomial(1, p).argmax() draws an index with probabilities p; Generator.choice/shuffle are uniform")
     ctx.note("the subtree move's missing term for the size-weighted random choice of the subtree (authors' TODO) is not claimed")
-    rule_G(ctx)
-    rule_P1(ctx)
-    rule_P3(ctx)
-    rule_C1(ctx)
-    rule_C2(ctx)
+    ctx.soft(rule_G)
+    ctx.soft(rule_P1)
+    ctx.soft(rule_P3)
+    ctx.soft(rule_C1)
+    ctx.soft(rule_C2)
     # the Gibbs weights are log_p_one of *edited copies*: they are the target's values only if every edit of
     # a tree refreshes the cached likelihoods it invalidates (same rule objects as C06.M1 / M2)
     from ..effects import TreeFx
